@@ -287,7 +287,13 @@ static inline void add_aes(std::vector<Entry> &E)
                                      set_ptr(c, 3, "aad", IN, ISAL_CRYPTO_ERR_NULL_AAD, aad, p.aad_len, p.aad_len == 0);
                                      set_scalar(c, 4, "aad_len", p.aad_len);
                                      c.nargs = 5;
-                                     c.result = [=](uint64_t) { return bytes_of(cd, sizeof(isal_gcm_context_data)); };
+                                     // the context is opaque: its later behaviour (update + finalize through the internal entry points) is the result
+                                     c.result = [=](uint64_t) {
+                                             std::vector<uint8_t> m = pbt::expandv(p.seed + 5, 45), o(45 + 16);
+                                             ((ae::gcm_update_fn) sym("_aes_gcm_enc_" + b + "_update"))(kd, cd, o.data(), m.data(), 45);
+                                             ((ae::gcm_final_fn) sym("_aes_gcm_enc_" + b + "_finalize"))(kd, cd, o.data() + 45, 16);
+                                             return o;
+                                     };
                                      return c.fn != nullptr;
                              } });
                 for (int dec = 0; dec < 2; dec++) {
@@ -338,8 +344,10 @@ static inline void add_aes(std::vector<Entry> &E)
                                                       set_scalar(c, 4, "len", p.len);
                                                       c.nargs = 5;
                                                       c.result = [=](uint64_t) {
-                                                              auto o = bytes_of(out, p.len), t = bytes_of(cd, sizeof(isal_gcm_context_data));
-                                                              o.insert(o.end(), t.begin(), t.end());
+                                                              auto o = bytes_of(out, p.len);
+                                                              uint8_t t[16];
+                                                              ((ae::gcm_final_fn) sym("_aes_gcm_" + ed + "_" + b + "_finalize"))(kd, cd, t, 16);
+                                                              o.insert(o.end(), t, t + 16);
                                                               return o;
                                                       };
                                                       return c.fn != nullptr;
